@@ -60,7 +60,7 @@ def plan(tier):
     for name, params, kind in pc.partitions(tier, "C04"):
         P.append(Part(H + "h_main", params, name, kind=kind, group="pipeline", timeout=1500, path_timeout=120))
     for tw in ["balanced", "unbalanced"]:
-        P.append(Part(H + "h_main", {"shape": ["j>>q"], "E": ["C", "H"], "K": 2, "twin": tw}, "pipe.twin[%s]" % tw, kind="twin", group="pipeline", timeout=600))
+        P.append(Part(H + "h_main", {"shape": ["j>>q"], "E": ["C", "H"], "K": 2, "twin": tw, "fix": {"m1": 4 if tw == "mcs" else 0, "jq": 0, "qq": 0}}, "pipe.twin[%s]" % tw, kind="twin", group="pipeline", timeout=600))
     return P
 
 
